@@ -9,7 +9,7 @@ import gen_models as G
 import meta
 from core import Family, q, unq, close, run_impl, run_model
 
-GEN_FILES = []
+GEN_FILES = ["ModelFunctions.v"]
 TRUSTED = e2e.TRUSTED
 ASSUMPTIONS = e2e.ASSUMPTIONS + ["transition rows sum to one (forced by the proof of the affine law)",
                                  "for the horizon law no function depends on _period"]
